@@ -295,28 +295,25 @@ theorem commit_is_followed_by_the_wait :
 
 /-- **(viii) nothing is left behind.**  On every path — every error return, every panic, every success — each
 reservation that was taken is released later on the path, the account locks are unlocked, the mutex is unlocked; the
-path ends with the entry point's return, or it panicked and after the panic only deferred calls and registered
-releases run. -/
+path ends with the entry point's return (after a panic: the error its caller answers once the panic has unwound), and
+after a panic only deferred calls and registered releases run before it. -/
 theorem nothing_left_behind :
     (∀ k ∈ [RefKind.iks, .txref, .reverts], Until (isTakeOk k) (isRelease k) (tagged p)) ∧
     Until isLockOk isUnlock (tagged p) ∧
     Until isMuLock isMuUnlock (tagged p) ∧
-    ((∃ x, (tagged p).getLast? = some x ∧ isFin x = true) ∨ (∃ x ∈ tagged p, isPanic x = true)) ∧
+    (∃ x, (tagged p).getLast? = some x ∧ isFin x = true) ∧
     Since isDirectOrFin never isPanic true (tagged p) := by
   refine ⟨?_, until_of_since_reverse _ _ _ ((sinceOk_iff ..).1 (clause e he p hp 45 _ rfl)),
     until_of_since_reverse _ _ _ ((sinceOk_iff ..).1 (clause e he p hp 46 _ rfl)), ?_,
     (sinceOk_iff ..).1 (clause e he p hp 48 _ rfl)⟩
   · intro k hk
     exact until_of_since_reverse _ _ _ ((sinceOk_iff ..).1 (List.all_eq_true.1 (clause e he p hp 44 _ rfl) k hk))
-  · have := clause e he p hp 47 _ rfl
-    simp only [Bool.or_eq_true, List.any_eq_true] at this
-    rcases this with h | h
-    · left
-      split at h
-      · rename_i x hx
-        exact ⟨x, hx, h⟩
-      · cases h
-    · exact .inr h
+  · have h := clause e he p hp 47 _ rfl
+    simp only at h
+    split at h
+    · rename_i x hx
+      exact ⟨x, hx, h⟩
+    · cases h
 
 /-- **(ix) the idempotency key is recorded**: on a path of a request that carries a key, the log is chained only
 after `WithIdempotencyKey` was applied to it. -/
